@@ -209,6 +209,11 @@ func evalGen(tier string, r *rng, emit func(string)) {
 	if tier == "thorough" {
 		n = 30000
 	}
+	if prop == "C01" { // every ordered pair of binary operators, unparenthesised, against the documented grouping
+		for k := 0; k < precPairSessions(); k++ {
+			emit(prop + ";steps=200000;" + strings.Join(genPrecPairs(k), "|"))
+		}
+	}
 	for i := 0; i < n; i++ {
 		if prop == "C01" && i%4 == 3 {
 			emit(prop + ";steps=200000;" + genPrecCase(r))
